@@ -22,6 +22,3 @@ Definition pinned_decls_mbits : list string :=
 
 Definition ok_mbits : Prop :=
   of_file fst "mbits.go" InvMbits.inventory = pinned_mbits /\ of_file (fun s => s) "mbits.go" InvMbits.decls = pinned_decls_mbits.
-
-Lemma C20_inventory_mbits : InvMbits.files = pinned_files /\ ok_mbits.
-Proof. unfold ok_mbits; repeat split; vm_compute; reflexivity. Qed.
